@@ -49,8 +49,8 @@ PROPS = {
     ),
     'C11': dict(
         props_file='Props/C11.v',
-        components=['c11'],
-        comp_names={11: 'compactLogsWithTrailing on a stepper node over a recording MapLogStore'},
+        components=['c11', 'c10'],
+        comp_names={6: 'node sequences with takeSnapshot events (snapshot metadata, content and compaction after every snapshot, crash cuts inside)', 11: 'compactLogsWithTrailing on a stepper node over a recording MapLogStore'},
         rule='first index, snapshot index, last index, TrailingLogs each in 0..8 (6561 cases, exhaustive in both tiers). Compared: the DeleteRange issued. '
              'Non-trivial = a range was deleted',
         exhaustive=True,
